@@ -8,10 +8,15 @@ as the implementation and the returned value / raised exception / full callback 
 The oracle below is the property statement written directly against what the decorated function
 returned and what the recording callbacks saw; it does not use the Coq model.
 """
+import collections
+import copy
 import itertools
 import os
+from collections.abc import Sequence
 from fractions import Fraction
-from numbers import Number
+from numbers import Integral, Number
+
+import numpy
 
 import vlib
 from vlib import cbool, clist, copt, cstr
@@ -22,8 +27,15 @@ GEN = os.path.join(vlib.COQ, "Gen", "C19_gen.v")
 
 
 # ---- Coq literals ---------------------------------------------------------------------------------
+def frac(x):
+    """exact rational value of a Python / numpy number"""
+    if isinstance(x, Fraction):
+        return x
+    return Fraction(int(x)) if isinstance(x, Integral) else Fraction(float(x))
+
+
 def cqq(x):
-    fr = Fraction(x)
+    fr = frac(x)
     n, d = fr.numerator, fr.denominator
     return "(Qmake %s %d%%positive)" % ("(%d)%%Z" % n if n < 0 else "%d%%Z" % n, d)
 
@@ -38,7 +50,7 @@ def to_val(x):
     try:
         if is_num(x):
             return "(VNum %s)" % cqq(x)
-        if isinstance(x, (tuple, list)) and all(is_num(y) for y in x):
+        if isinstance(x, (tuple, list)) and all(is_num(y) for y in x):   # what the implementation may return / cfg lists
             return "(VTup %s)" % clist([cqq(y) for y in x])
     except Exception:  # noqa
         pass
@@ -71,7 +83,66 @@ def coutcome(out):
 
 
 # ---- running the implementation -------------------------------------------------------------------
-SESSION_KEYS = ("kind", "delta", "alpha", "explicit_none", "alias", "via_toolbox", "two_funcs", "seq_as_tuple", "dother")
+class MySeq(Sequence):
+    """a user-defined collections.abc.Sequence (neither tuple nor list)"""
+
+    def __init__(self, items):
+        self._items = list(items)
+
+    def __getitem__(self, i):
+        return self._items[i]
+
+    def __len__(self):
+        return len(self._items)
+
+
+def as_range(lst):
+    """the range object with exactly these elements, or None"""
+    if not lst or not all(isinstance(x, int) and not isinstance(x, bool) for x in lst):
+        return None
+    if len(lst) == 1:
+        return range(lst[0], lst[0] + 1)
+    st = lst[1] - lst[0]
+    if st == 0 or any(lst[i + 1] - lst[i] != st for i in range(len(lst) - 1)):
+        return None
+    return range(lst[0], lst[0] + st * len(lst), st)
+
+
+def wrapnum(x, nt):
+    """the number x as the implementation receives it (cfg keeps the plain Python value)"""
+    if nt == "np64":
+        return numpy.float64(x)
+    if nt == "np32":
+        return numpy.float32(x)
+    if nt == "npint":
+        return numpy.int64(x) if isinstance(x, int) else numpy.float64(x)
+    return x
+
+
+def wrapseq(lst, st, nt):
+    items = [wrapnum(x, nt) for x in lst]
+    if st == "list":
+        return items
+    if st == "deque":
+        return collections.deque(items)
+    if st == "myseq":
+        return MySeq(items)
+    if st == "range":
+        r = as_range(lst)
+        if r is not None:
+            return r
+    return tuple(items)
+
+
+def seq_content(x):
+    try:
+        return [frac(y) for y in x]
+    except Exception:  # noqa
+        return repr(x)
+
+
+SESSION_KEYS = ("kind", "delta", "alpha", "explicit_none", "alias", "via_toolbox", "two_funcs", "seq_type", "num_type",
+                "dother", "ctor_kw")
 
 
 def compatible(a, b):
@@ -82,8 +153,8 @@ def compatible(a, b):
 class Obs:
     """what one call of the decorated function showed"""
 
-    def __init__(self, out, log, e0):
-        self.out, self.log, self.e0 = out, log, e0
+    def __init__(self, out, log, e0, modified=()):
+        self.out, self.log, self.e0, self.modified = out, log, e0, list(modified)
 
 
 class Session:
@@ -98,12 +169,19 @@ class Session:
         self.e0 = self.e1 = None
         self.cur_func = 0
         self.funcs = None
+        self.dec = None
+        self.delta_obj = None
+        self.last_dist_obj = None
         self.build_result = vlib.guarded(self.build)
 
     def ident(self, x):
         return 0 if x is self.ind0 else 1 if x is self.ind1 else 99
 
     def feasibility(self, ind):
+        self.log.append(("feas", self.ident(ind)))
+        return self.cfg["feas_value"]
+
+    def feasibility_b(self, ind):            # a second, equivalent callback (assigned to dec.fbty_fct between calls)
         self.log.append(("feas", self.ident(ind)))
         return self.cfg["feas_value"]
 
@@ -126,33 +204,46 @@ class Session:
 
     def dist1(self, ind):
         self.log.append(("dist1", self.ident(ind)))
-        return self.conv(self.cfg["dist"]) if ind is self.ind0 else ()
+        if ind is self.ind0:
+            self.last_dist_obj = self.conv(self.cfg["dist"], self.cfg.get("dist_seq_type"))
+            return self.last_dist_obj
+        return ()
 
     def dist2(self, f, ind):
         self.log.append(("dist2", self.ident(f), self.ident(ind)))
         if f is self.ind1 and ind is self.ind0:
-            return self.conv(self.cfg["dist"])
+            self.last_dist_obj = self.conv(self.cfg["dist"], self.cfg.get("dist_seq_type"))
+            return self.last_dist_obj
         return self.cfg["dother"]
 
-    def conv(self, v):
+    def conv(self, v, st=None):
+        nt = self.cfg.get("num_type", "py")
         if isinstance(v, list):
-            return tuple(v) if self.cfg.get("seq_as_tuple", True) else list(v)
-        return v
+            return wrapseq(v, st or self.cfg.get("seq_type", "tuple"), nt)
+        return wrapnum(v, nt)
 
     def build(self):
         cfg, mod = self.first, self.mod
         alias = cfg.get("alias", False)
         if cfg["kind"] == "delta":
             cls = getattr(mod, "DeltaPenality", mod.DeltaPenalty) if alias else mod.DeltaPenalty
-            dargs = [self.feasibility, self.conv(cfg["delta"])]
+            self.delta_obj = self.conv(cfg["delta"])
+            dargs = [("feasibility", self.feasibility), ("delta", self.delta_obj)]
             if cfg["dist"] is not None or cfg.get("explicit_none"):
-                dargs.append(self.dist1 if cfg["dist"] is not None else None)
+                dargs.append(("distance", self.dist1 if cfg["dist"] is not None else None))
         else:
             cls = getattr(mod, "ClosestValidPenality", mod.ClosestValidPenalty) if alias else mod.ClosestValidPenalty
-            dargs = [self.feasibility, self.feasible, cfg["alpha"]]
+            dargs = [("feasibility", self.feasibility), ("feasible", self.feasible), ("alpha", self.conv(cfg["alpha"]))]
             if cfg["dist"] is not None or cfg.get("explicit_none"):
-                dargs.append(self.dist2 if cfg["dist"] is not None else None)
-        dec = cls(*dargs)
+                dargs.append(("distance", self.dist2 if cfg["dist"] is not None else None))
+        ck = cfg.get("ctor_kw", "pos")      # constructor arguments positionally, all by keyword, or only `distance=`
+        if ck == "all":
+            dec = cls(**dict(dargs))
+        elif ck == "distance" and dargs[-1][0] == "distance":
+            dec = cls(*[v for _, v in dargs[:-1]], distance=dargs[-1][1])
+        else:
+            dec = cls(*[v for _, v in dargs])
+        self.dec = dec
         funcs = []
         for which in range(2 if cfg.get("two_funcs") else 1):
             ev = self.make_evaluator(which)
@@ -167,23 +258,98 @@ class Session:
         self.funcs = funcs
         return True
 
+    def reconfigure(self, cfg):
+        """public attribute assignment on the decorator instance between two calls; cfg holds the new effective values"""
+        for attr in cfg.get("reconf", ()):
+            if attr == "alpha":
+                self.dec.alpha = self.conv(cfg["alpha"])
+            elif attr == "delta":
+                self.delta_obj = self.conv(cfg["delta"])        # a Sequence (cfg["delta"] is a list here)
+                self.dec.delta = self.delta_obj
+            elif attr == "dist_fct":
+                fn = self.dist1 if cfg["kind"] == "delta" else self.dist2
+                self.dec.dist_fct = fn if cfg["dist"] is not None else None
+            elif attr == "fbty_fct":
+                self.dec.fbty_fct = self.feasibility_b
+
     def call(self, cfg):
-        """one call of (one of) the decorated function(s) on a fresh pair of individuals"""
+        """one call of (one of) the decorated function(s); fresh individuals unless cfg asks to reuse the previous ones"""
+        prev0 = self.ind0
         self.cfg = cfg
         use_creator = cfg.get("creator", False)
-        self.ind0 = self.mkind(cfg["w0"], 0, use_creator)
-        self.ind1 = self.mkind(cfg.get("w1", cfg["w0"]), 1, use_creator)
-        self.e0 = tuple(cfg["e0"]) if isinstance(cfg["e0"], (list, tuple)) else cfg["e0"]
-        e1 = cfg.get("e1", ())
-        self.e1 = tuple(e1) if isinstance(e1, (list, tuple)) else e1
+        nt = cfg.get("num_type", "py")
+        if cfg.get("reuse_ind") and prev0 is not None and not use_creator and hasattr(prev0, "__dict__") \
+                and not isinstance(prev0, list):
+            self.ind0 = prev0                                  # the same object again, its weights changed in place
+            self.ind0.fitness.weights = tuple(cfg["w0"])
+        else:
+            self.ind0 = self.mkind(cfg["w0"], 0, use_creator)
+        c1 = cfg.get("closest_obj", "normal")
+        if c1 == "same":
+            self.ind1 = self.ind0                              # the `feasible` callback hands back its argument
+        elif c1 == "nofitness":
+            self.ind1 = numpy.array([0.25, 1.0])               # as in the module's own example: no .fitness at all
+        else:
+            self.ind1 = self.mkind(cfg.get("w1", cfg["w0"]), 1, use_creator)
+
+        def fitness_obj(v, as_list):
+            if isinstance(v, (list, tuple)):
+                items = [wrapnum(x, nt) for x in v]
+                return items if as_list else tuple(items)
+            return wrapnum(v, nt)
+        self.e0 = fitness_obj(cfg["e0"], cfg.get("e0_list"))
+        self.e1 = self.e0 if c1 == "same" else fitness_obj(cfg.get("e1", ()), cfg.get("e1_list"))
         del self.log[:]
+        self.last_dist_obj = None
         if self.build_result[0] != "ok":
             return Obs(self.build_result, [], self.e0)
+        r = vlib.guarded(self.reconfigure, cfg)
+        if r[0] != "ok":
+            return Obs(r, [], self.e0)
         self.cur_func = cfg.get("which_func", 0) % len(self.funcs)
         f = self.funcs[self.cur_func]
         ind0 = self.ind0
-        out = vlib.guarded(lambda: f(ind0, *cfg["args"], **cfg["kwargs"]))
-        return Obs(out, list(self.log), self.e0)
+        args, kwargs = tuple(cfg["args"]), dict(cfg["kwargs"])
+        # snapshots of everything handed to the decorator: none of it may be modified
+        snap = self.snapshot(args)
+        if cfg.get("ind_kw") and not args:
+            out = vlib.guarded(lambda: f(individual=ind0, **kwargs))
+        else:
+            out = vlib.guarded(lambda: f(ind0, *args, **kwargs))
+        after = self.snapshot(args)
+        modified = [k for k in snap if snap[k] != after[k]] + self.altered_answers(cfg)
+        return Obs(out, list(self.log), self.e0, modified)
+
+    def snapshot(self, args):
+        def state(ind):
+            d = {}
+            try:
+                d["content"] = [repr(x) for x in ind] if isinstance(ind, (list, numpy.ndarray)) else None
+                fit = getattr(ind, "fitness", None)
+                if fit is not None:
+                    d["weights"] = repr(fit.weights)
+                    d["wvalues"] = repr(getattr(fit, "wvalues", None))
+                    d["fitness_attrs"] = sorted(k for k in getattr(fit, "__dict__", {}))
+                d["attrs"] = sorted(k for k in getattr(ind, "__dict__", {}))
+            except Exception as e:  # noqa
+                d["error"] = repr(e)
+            return d
+        return {"the individual": state(self.ind0), "the closest valid point": state(self.ind1),
+                "the constant sequence passed as delta": seq_content(self.delta_obj) if isinstance(self.delta_obj, Sequence) else repr(self.delta_obj),
+                "the extra positional arguments": repr(args)}
+
+    def altered_answers(self, cfg):
+        """objects the callbacks handed out must still hold what they held"""
+        out = []
+        same = cfg.get("closest_obj") == "same"
+        for name, obj, want in (("the evaluation function's result for the individual", self.e0, cfg["e0"]),
+                                ("the evaluation function's result for the closest valid point", self.e1,
+                                 cfg["e0"] if same else cfg.get("e1", ())),
+                                ("the sequence returned by the distance function", self.last_dist_obj, cfg["dist"])):
+            if obj is not None and isinstance(want, (list, tuple)) and isinstance(obj, (Sequence, collections.deque)) \
+                    and seq_content(obj) != [frac(x) for x in want]:
+                out.append(name)
+        return out
 
 
 def sign_expected(w):
@@ -199,7 +365,8 @@ def in_scope(cfg):
         if isinstance(cfg["delta"], list) and len(cfg["delta"]) != n:
             return False
     else:
-        if not isinstance(cfg["e1"], (list, tuple)) or len(cfg["e1"]) != n:
+        e = cfg["e0"] if cfg.get("closest_obj") == "same" else cfg["e1"]
+        if not isinstance(e, (list, tuple)) or len(e) != n:
             return False
     if isinstance(cfg["dist"], list) and len(cfg["dist"]) != n:
         return False
@@ -215,11 +382,15 @@ def oracle(cfg, world, out, log):
     bad = []
     evals = [e for e in log if e[0] == "eval"]
     want_extra = (tuple(cfg["args"]), dict(cfg["kwargs"]))
+    for m in getattr(world, "modified", ()):
+        bad.append("the decorated call modified %s" % m)
     if cfg["feasible"]:
         if out[0] != "ok":
-            return ["feasible individual: decorated function raised %s" % out[1]]
+            return bad + ["feasible individual: decorated function raised %s" % out[1]]
         if out[1] is not world.e0:
             bad.append("feasible individual: result is not what the undecorated function returns")
+        elif isinstance(cfg["e0"], (list, tuple)) and seq_content(out[1]) != [frac(x) for x in cfg["e0"]]:
+            bad.append("feasible individual: the undecorated function's result was altered in place")
         if [(e[1], e[2], e[3]) for e in evals] != [(0,) + want_extra]:
             bad.append("feasible individual: evaluator not called exactly once on the individual with the same extra arguments")
         return bad
@@ -227,11 +398,12 @@ def oracle(cfg, world, out, log):
         return bad
     n = len(cfg["w0"])
     dist = cfg["dist"] if cfg["dist"] is not None else 0
+    same = cfg.get("closest_obj") == "same"
     if out[0] != "ok":
-        return ["infeasible individual: decorated function raised %s" % out[1]]
+        return bad + ["infeasible individual: decorated function raised %s" % out[1]]
     r = out[1]
     if not isinstance(r, tuple) or len(r) != n or not all(is_num(x) for x in r):
-        return ["infeasible individual: result is not a tuple with one number per objective"]
+        return bad + ["infeasible individual: result is not a tuple with one number per objective"]
     if cfg["kind"] == "delta":
         if evals:
             bad.append("constant penalty: evaluation function called for an infeasible individual")
@@ -239,14 +411,14 @@ def oracle(cfg, world, out, log):
         step = [comp(dist, k) for k in range(n)]
         what = "constant"
     else:
-        if [(e[1], e[2], e[3]) for e in evals] != [(1,) + want_extra]:
+        if [(e[1], e[2], e[3]) for e in evals] != [((0 if same else 1),) + want_extra]:
             bad.append("closest valid: evaluator not called exactly once, on the closest valid point, with the same extra arguments")
-        base = list(cfg["e1"])
-        step = [Fraction(cfg["alpha"]) * Fraction(comp(dist, k)) for k in range(n)]
+        base = list(cfg["e0"] if same else cfg["e1"])
+        step = [frac(cfg["alpha"]) * frac(comp(dist, k)) for k in range(n)]
         what = "closest valid fitness"
     for k in range(n):
         s = sign_expected(cfg["w0"][k])
-        rk, bk, dk = Fraction(r[k]), Fraction(base[k]), Fraction(step[k])
+        rk, bk, dk = frac(r[k]), frac(base[k]), frac(step[k])
         if s != 0 and rk != bk - s * dk:
             bad.append("objective %d: result is not the %s moved by the distance in the worse direction" % (k, what))
         if s == 0 and abs(rk - bk) != abs(dk):
@@ -269,7 +441,7 @@ def oracle_monotone(cfg, out, cfg2, out2):
         s = sign_expected(cfg["w0"][k])
         if not (is_num(r[k]) and is_num(r2[k])):
             continue
-        if (s > 0 and r2[k] > r[k]) or (s < 0 and r2[k] < r[k]):
+        if (s > 0 and frac(r2[k]) > frac(r[k])) or (s < 0 and frac(r2[k]) < frac(r[k])):
             bad.append("objective %d: penalised fitness improves as the distance grows" % k)
     return bad
 
@@ -284,8 +456,8 @@ def case_term(cfg, out, log):
             wl(cfg["w0"]), cbool(cfg["feasible"]), to_val(cfg["delta"]), copt(cfg["dist"], to_val),
             to_val(cfg["e0"]), a, coutcome(out), lg)
     d = None if cfg["dist"] is None else "(%s, %s)" % (to_val(cfg["dist"]), to_val(cfg["dother"]))
-    return "CClosest %s %s %s %s %s %s %s %s %s %s" % (
-        wl(cfg["w0"]), wl(cfg["w1"]), cbool(cfg["feasible"]), cqq(cfg["alpha"]),
+    return "CClosest %s %s %s %s %s %s %s %s %s %s %s" % (
+        wl(cfg["w0"]), wl(cfg["w1"]), cbool(cfg.get("closest_obj") == "same"), cbool(cfg["feasible"]), cqq(cfg["alpha"]),
         "None" if d is None else "(Some %s)" % d, to_val(cfg["e0"]), to_val(cfg["e1"]), a, coutcome(out), lg)
 
 
@@ -325,50 +497,113 @@ def dynn(rng, hi=40, den=8):
     return 0.0 if rng.random() < 0.2 else rng.randint(0, hi) / den
 
 
-def base_cfg(rng, kind, w, feasible, delta_shape, dist_shape, alpha=None, extra=None):
+NUM_TYPES = ["py"] * 10 + ["np64", "np32", "npint"]
+SEQ_TYPES = ["tuple"] * 6 + ["list"] * 3 + ["deque", "myseq", "range"]
+
+
+def base_cfg(rng, kind, w, feasible, delta_shape, dist_shape, alpha=None, extra=None, num_type=None, domain=None):
     n = len(w)
     cfg = {"kind": kind, "w0": list(w), "feasible": bool(feasible),
            "feas_value": rng.choice(TRUTHY) if feasible else rng.choice(FALSY),
-           "e0": [dy(rng) for _ in range(n)],
            "args": (), "kwargs": {}, "alias": rng.random() < 0.5, "via_toolbox": rng.random() < 0.15,
-           "seq_as_tuple": rng.random() < 0.7, "explicit_none": rng.random() < 0.3,
+           "seq_type": rng.choice(SEQ_TYPES), "dist_seq_type": rng.choice(SEQ_TYPES), "num_type": rng.choice(NUM_TYPES),
+           "explicit_none": rng.random() < 0.3, "ctor_kw": rng.choice(["pos", "pos", "all", "distance"]),
            "creator": rng.random() < 0.5, "call_twice": rng.random() < 0.2,
-           "two_funcs": rng.random() < 0.15, "which_func": rng.randint(0, 1)}
+           "two_funcs": rng.random() < 0.15, "which_func": rng.randint(0, 1),
+           "e0_list": rng.random() < 0.3, "e1_list": rng.random() < 0.3, "ind_kw": rng.random() < 0.15}
     a, k = extra if extra is not None else rand_extra(rng)
     cfg["args"], cfg["kwargs"] = tuple(a), dict(k)
-    if rng.random() < 0.3:   # integer-valued numbers (Python ints)
+    if num_type is not None:
+        cfg["num_type"] = num_type
+    # value domain of this configuration (shared by all calls on one decorator instance, so that the
+    # implementation's float arithmetic stays exact)
+    r = rng.random()
+    if domain is not None:
+        r = {"int": 0.0, "hugeint": 0.3, "offset": 0.35, "dyadic": 0.9}[domain]
+    if (cfg["num_type"] == "npint" and domain is None) or r < 0.25:       # Python / numpy ints
+        dom = "int"
         num = lambda: rng.randint(-9, 9)      # noqa
         nn = lambda: rng.randint(0, 9)        # noqa
+    elif r < 0.31 and kind == "delta" and cfg["num_type"] == "py" and (domain in (None, "hugeint")):
+        dom = "hugeint"                        # beyond 2**53: exact only as Python ints (DeltaPenalty's signs are ints)
+        num = lambda: rng.choice([1, -1]) * (2 ** 60 + rng.randint(0, 9))   # noqa
+        nn = lambda: rng.choice([0, 1, 2 ** 55 + rng.randint(0, 9)])        # noqa
+    elif r < 0.37 and cfg["num_type"] in ("py", "np64") and (domain in (None, "offset")):
+        dom = "offset"                         # large offset, tiny spread (exactly representable)
+        num = lambda: rng.choice([1, -1]) * 2.0 ** 30 + rng.randint(-8, 8) * 2.0 ** -10   # noqa
+        nn = lambda: rng.randint(0, 8) * 2.0 ** -20                                       # noqa
     else:
+        dom = "dyadic"
         num = lambda: dy(rng)                 # noqa
         nn = lambda: dynn(rng)                # noqa
+    cfg["domain"] = dom
+    cfg["e0"] = [num() for _ in range(n)]
     if dist_shape == "none":
         cfg["dist"] = None
     elif dist_shape == "scalar":
         cfg["dist"] = nn()
     else:
         cfg["dist"] = [nn() for _ in range(n)]
+        if cfg["dist_seq_type"] == "range" and dom == "int" and n >= 1:
+            a0, st = rng.randint(0, 4), rng.randint(1, 3)
+            cfg["dist"] = list(range(a0, a0 + st * n, st))
     if kind == "delta":
         cfg["delta"] = num() if delta_shape == "scalar" else [num() for _ in range(n)]
+        if delta_shape != "scalar" and cfg["seq_type"] == "range" and dom == "int" and n >= 1:
+            a0, st = rng.randint(-9, 9), rng.choice([-3, -1, 1, 2])
+            cfg["delta"] = list(range(a0, a0 + st * n, st))
     else:
         cfg["w1"] = [-x if x != 0 else 1.0 for x in w]       # the closest individual carries different weights
         cfg["e1"] = [num() for _ in range(n)]
-        cfg["alpha"] = alpha if alpha is not None else rng.choice([0, 0.0, 0.25, 0.5, 1.0, 2, 3.5])
+        if alpha is not None:
+            cfg["alpha"] = alpha
+        elif dom == "offset":
+            cfg["alpha"] = rng.choice([0, 0.5, 1.0, 2])      # products with 2**-20 distances stay within 53 bits of 2**30
+        elif dom == "int" and cfg["num_type"] == "npint":
+            cfg["alpha"] = rng.choice([0, 1, 2, 3])
+        else:
+            cfg["alpha"] = rng.choice([0, 0.0, 0.25, 0.5, 1.0, 2, 3.5])
         cfg["dother"] = 64.0
+        cfg["closest_obj"] = rng.choice(["normal"] * 6 + ["nofitness", "nofitness", "same"])
     return cfg
 
 
-def follow(rng, first, w, feasible, dist_shape=None, extra=None):
-    """another call on the decorated function `first` was made on: a different individual (weights w), its own
-    feasibility / distance / evaluator answers / extra arguments; the decorator's construction is shared"""
-    cfg = base_cfg(rng, first["kind"], w, feasible, "scalar",
-                   dist_shape or rng.choice(["scalar", "vector"]), extra=extra)
+def follow(rng, prev, w, feasible, dist_shape=None, extra=None, reconf=False):
+    """the next call on the decorated function `prev` was made on: a different individual (weights w) with its own
+    feasibility / distance / evaluator answers / extra arguments; the decorator instance is shared.  With reconf, one
+    public attribute of the decorator instance is assigned first (alpha, delta, dist_fct, fbty_fct)."""
+    cfg = base_cfg(rng, prev["kind"], w, feasible, "scalar",
+                   dist_shape or rng.choice(["scalar", "vector"]), extra=extra,
+                   num_type=prev.get("num_type", "py"), domain=prev.get("domain", "dyadic"))
     for k in SESSION_KEYS:
-        if k in first:
-            cfg[k] = first[k]
-    if first["dist"] is None:
+        if k in prev:
+            cfg[k] = prev[k]
+    if prev["dist"] is None:
         cfg["dist"] = None
     cfg["call_twice"] = False
+    cfg["reuse_ind"] = rng.random() < 0.3
+    cfg.pop("reconf", None)
+    if reconf:
+        attr = rng.choice(["alpha", "delta", "dist_fct", "fbty_fct"] if prev["kind"] == "closest"
+                          else ["delta", "delta", "dist_fct", "fbty_fct"])
+        if attr == "alpha" and prev["kind"] == "closest":
+            pool = (0, 0.5, 1.0, 2) if cfg.get("domain") == "offset" else (0, 0.25, 0.5, 1.0, 2, 3)
+            cfg["alpha"] = rng.choice([a for a in pool if a != prev["alpha"]])
+            cfg["reconf"] = ["alpha"]
+        elif attr == "delta" and prev["kind"] == "delta":
+            n = len(w)
+            cfg["delta"] = [rng.randint(-9, 9) if cfg.get("domain") in ("int", "hugeint") else dy(rng) for _ in range(n)]
+            cfg["reconf"] = ["delta"]
+        elif attr == "dist_fct":
+            if prev["dist"] is None:
+                n = len(w)
+                nn = (lambda: rng.randint(0, 9)) if cfg.get("domain") in ("int", "hugeint") else (lambda: dynn(rng))
+                cfg["dist"] = nn() if rng.random() < 0.5 else [nn() for _ in range(n)]
+            else:
+                cfg["dist"] = None
+            cfg["reconf"] = ["dist_fct"]
+        elif attr == "fbty_fct":
+            cfg["reconf"] = ["fbty_fct"]
     return cfg
 
 
@@ -376,8 +611,15 @@ def grown(rng, cfg):
     """the same configuration with a distance at least as large on every objective"""
     n = len(cfg["w0"])
     c = dict(cfg)
+    c.pop("reconf", None)
+    c["reuse_ind"] = False
     d = cfg["dist"]
-    inc = lambda: rng.choice([0, 0.5, 1.0, 2.25, 8])  # noqa
+    if cfg.get("domain") in ("int", "hugeint"):
+        inc = lambda: rng.choice([0, 1, 2, 8])  # noqa
+    elif cfg.get("domain") == "offset":
+        inc = lambda: rng.choice([0, 1, 3]) * 2.0 ** -20  # noqa
+    else:
+        inc = lambda: rng.choice([0, 0.5, 1.0, 2.25, 8])  # noqa
     if d is None:
         c["dist"] = rng.choice([inc(), [inc() for _ in range(n)]])
     elif isinstance(d, list):
@@ -480,6 +722,7 @@ def main(run):
 
     terms, cases = [], []
     stats = {"feasible": 0, "infeasible": 0, "out_of_scope": 0, "raised": 0, "mono_pairs": 0}
+    flavours = {}
 
     def describe(cfg, out, log):
         d = dict(cfg)
@@ -488,14 +731,14 @@ def main(run):
         d["calls"] = [list(map(repr, e)) for e in log]
         return d
 
-    def run_session(cfgs, collect=True):
-        """the calls cfgs[0], cfgs[1], ... one after the other on ONE decorated function (split where the decorator
-        construction differs); every call is judged on its own against the statement and tied on its own."""
-        outs = []
-        sess, first, history = None, None, []
-        for cfg in cfgs:
-            if sess is None or not compatible(first, cfg):
-                sess, first, history = Session(constraint, cfg, mkind), cfg, []
+    def run_calls(calls, collect=True):
+        """calls = [(decorator-instance id, cfg), ...] in execution order; calls with the same id go to the same decorator
+        instance / decorated function(s).  Every call is judged on its own against the statement and tied on its own."""
+        outs, sessions = [], {}
+        for sid, cfg in calls:
+            if sid not in sessions:
+                sessions[sid] = (Session(constraint, cfg, mkind), [])
+            sess, history = sessions[sid]
             reps = 2 if cfg.get("call_twice") else 1
             for nth in range(reps):
                 obs = sess.call(cfg)
@@ -503,13 +746,15 @@ def main(run):
                 case = describe(cfg, out, log)
                 case["position_in_call_sequence"] = len(history) + 1
                 if history:
-                    case["earlier_calls_on_same_decorated_function"] = history[-6:]
+                    case["earlier_calls_on_same_decorator_instance"] = history[-6:]
+                if len(sessions) > 1:
+                    case["interleaved_with_other_decorator_instances"] = len(sessions) - 1
                 nontrivial = (not cfg["feasible"] and cfg["dist"] is not None) or \
                              (cfg["feasible"] and (cfg["args"] or cfg["kwargs"])) or bool(history)
                 run.note_case({k: v for k, v in case.items() if k not in ("observed", "calls")}, nontrivial,
                               sample=case if (run.evaluations % 211 == 3) else None)
                 for b in oracle(cfg, obs, out, log):
-                    run.oracle_violation(b if not history else "call %d on the same decorated function: %s" % (len(history) + 1, b),
+                    run.oracle_violation(b if not history else "call %d on the same decorator instance: %s" % (len(history) + 1, b),
                                          case, observed=case["observed"])
                 if out[0] == "raise":
                     stats["raised"] += 1
@@ -517,7 +762,8 @@ def main(run):
                     terms.append(case_term(cfg, out, log))
                     cases.append(case)
                 history.append({"weights": list(cfg["w0"]), "feasible": cfg["feasible"], "dist": cfg["dist"],
-                                "args": list(cfg["args"]), "kwargs": dict(cfg["kwargs"]), "returned": repr(out[1])})
+                                "args": list(cfg["args"]), "kwargs": dict(cfg["kwargs"]), "reconfigured": cfg.get("reconf"),
+                                "same_individual_object": bool(cfg.get("reuse_ind")), "returned": repr(out[1])})
                 if nth == 0:
                     outs.append(out)
             if cfg["feasible"]:
@@ -526,9 +772,24 @@ def main(run):
                 stats["infeasible"] += 1
             else:
                 stats["out_of_scope"] += 1
-        if len(cfgs) > 1:
+            for k in ("num_type", "seq_type", "domain", "closest_obj", "ctor_kw"):
+                key = "%s=%s" % (k, cfg.get(k))
+                flavours[key] = flavours.get(key, 0) + 1
+            if cfg.get("reconf"):
+                stats["reconfigured"] = stats.get("reconfigured", 0) + 1
+        if len(calls) > 1:
             stats["sequences"] = stats.get("sequences", 0) + 1
         return outs
+
+    def run_session(cfgs, collect=True):
+        """the calls one after the other on ONE decorator instance (a new one where the construction must differ)"""
+        calls, sid, first = [], 0, None
+        for cfg in cfgs:
+            if first is None or not (cfg.get("reconf") or compatible(first, cfg)):
+                sid += 1
+            first = cfg
+            calls.append((sid, cfg))
+        return run_calls(calls, collect)
 
     def one(cfg, collect=True):
         return run_session([cfg], collect)[0]
@@ -604,31 +865,48 @@ def main(run):
 
     def random_case(collect=True):
         kind = rng.choice(["delta", "closest"])
-        n = rng.choice([1, 1, 2, 2, 3, 3, 4, 4, 4, 5, 6])
+        n = rng.choice([1, 1, 2, 2, 3, 3, 4, 4, 4, 5, 6, 10])
         w = [rand_weight() for _ in range(n)]
         cfg = base_cfg(rng, kind, w, rng.random() < 0.3, rng.choice(["scalar", "vector"]), rng.choice(["none", "scalar", "vector"]))
         with_partner(cfg, collect)
 
-    def random_sequence(collect=True):
-        """2..6 calls on one decorated function: individuals of different fitness classes (sign patterns, magnitudes,
-        same and different numbers of objectives), feasible / infeasible interleaved, their own extra arguments"""
-        kind = rng.choice(["delta", "closest"])
-        n = rng.choice([1, 2, 2, 3, 3, 4])
+    def make_sequence(kind, n):
         first = base_cfg(rng, kind, [rand_weight() for _ in range(n)], rng.random() < 0.4,
                          rng.choice(["scalar", "scalar", "vector"]), rng.choice(["none", "scalar", "vector"]))
+        first["call_twice"] = False
         seq = [first]
         for _ in range(rng.randint(1, 5)):
             m = n if rng.random() < 0.75 else rng.choice([1, 2, 3, 4])
-            seq.append(follow(rng, first, [rand_weight() for _ in range(m)], rng.random() < 0.4))
+            seq.append(follow(rng, seq[-1], [rand_weight() for _ in range(m)], rng.random() < 0.4, reconf=rng.random() < 0.3))
             seq[-1]["which_func"] = rng.randint(0, 1)
-        run_session(seq, collect)
+        return seq
+
+    def random_sequence(collect=True):
+        """2..6 calls on one decorator instance: individuals of different fitness classes (sign patterns, magnitudes,
+        same and different numbers of objectives) or the same individual object with changed weights, feasible /
+        infeasible interleaved, own extra arguments, public attributes of the decorator reassigned in between"""
+        run_session(make_sequence(rng.choice(["delta", "closest"]), rng.choice([1, 2, 2, 3, 3, 4])), collect)
+
+    def random_interleaved(collect=True):
+        """two decorator instances (same or different class) used alternately: nothing may leak through the class or module"""
+        k1 = rng.choice(["delta", "closest"])
+        k2 = k1 if rng.random() < 0.7 else rng.choice(["delta", "closest"])
+        a, b = make_sequence(k1, rng.choice([1, 2, 3])), make_sequence(k2, rng.choice([1, 2, 3]))
+        calls = []
+        while a or b:
+            if a and (not b or rng.random() < 0.5):
+                calls.append((1, a.pop(0)))
+            else:
+                calls.append((2, b.pop(0)))
+        run_calls(calls, collect)
 
     def out_of_scope_case(collect=True):
         """sizes that do not agree, empty weights, evaluator returning a bare number: correspondence only"""
         kind = rng.choice(["delta", "closest"])
         n = rng.choice([0, 1, 2, 3, 4])
         w = [rand_weight() for _ in range(n)]
-        cfg = base_cfg(rng, kind, w, rng.random() < 0.15, "vector", rng.choice(["none", "scalar", "vector", "vector"]))
+        cfg = base_cfg(rng, kind, w, rng.random() < 0.15, "vector", rng.choice(["none", "scalar", "vector", "vector"]),
+                       domain="dyadic")
         m = rng.choice([0, 1, 2, 3, 5])
         what = rng.choice(["delta", "dist", "e1", "e1num", "both"])
         if kind == "delta" and what in ("delta", "both", "e1", "e1num"):
@@ -646,12 +924,15 @@ def main(run):
         random_case()
     for _ in range(run.scale(200, 1000)):
         out_of_scope_case()
-    for _ in range(run.scale(250, 1500)):
+    for _ in range(run.scale(200, 1500)):
         random_sequence()
+    for _ in range(run.scale(60, 500)):
+        random_interleaved()
     if run.thorough:
         exhaustive()      # a second sweep with fresh numbers
 
     run.extra_cov["case_kinds"] = stats
+    run.extra_cov["flavours"] = flavours
     bad_model = run.correspond("model", "C19", terms, cases)
     if gen_ok:
         run.correspond("regenerated", "C19", terms, cases, check="check_gen",
@@ -682,6 +963,7 @@ def main(run):
         for _ in range(run.scale(4000, 40000)):
             random_case(collect=False)
             random_sequence(collect=False)
+            random_interleaved(collect=False)
             if run.oracle_viol:
                 return
         exhaustive(collect=False)
